@@ -170,6 +170,9 @@ void prop_sketch(const Case& cs) {
   bool est_mode = false;
   if (fam == 0 || fam == 1) {  // theta / tuple (+ union result)
     uint8_t lg_k = static_cast<uint8_t>(5 + cfg % 9);
+    // trim() zero, one or two times after the stream (a second trim finds exactly k entries), and streams of exactly k distinct items
+    const int trims = (cfg / 512) % 4 == 3 ? 0 : (cfg / 512) % 4;
+    if ((cfg / 2048) & 1) { n = 1ull << lg_k; vf::label("exactly-k-distinct-items"); }
     float p = (cfg / 16) % 3 == 0 ? 1.0f : (cfg / 16) % 3 == 1 ? 0.5f : 0.05f;
     if (fam == 0) {
       // every resize factor; half of the cases reuse objects that had an earlier life in estimation mode and were reset
@@ -183,6 +186,8 @@ void prop_sketch(const Case& cs) {
         vf::label("theta-reused-after-reset");
       }
       for (uint64_t i = 0; i < n; ++i) { sk.update(base + i); if (i % 3 != 0) sk2.update(base + i + n / 2); }
+      for (int t = 0; t < trims; ++t) { sk.trim(); VF_CHECK(sk.get_num_retained() <= (1u << lg_k), "theta-trim", "after trim() " << sk.get_num_retained() << " entries retained, k = " << (1u << lg_k)); }
+      if (trims) vf::label(trims == 2 ? "trimmed-twice" : "trimmed");
       check_interval(sk, "theta", sk.get_estimate());
       est_mode = sk.is_estimation_mode();
       if (!est_mode) VF_CHECK(sk.get_estimate() == static_cast<double>(n), "theta-exact", "exact mode estimate " << sk.get_estimate() << " for " << n << " distinct");
@@ -208,6 +213,7 @@ void prop_sketch(const Case& cs) {
     } else {
       auto sk = update_tuple_sketch<double>::builder().set_lg_k(lg_k).set_p(p).build();
       for (uint64_t i = 0; i < n; ++i) sk.update(base + i, 1.0);
+      for (int t = 0; t < trims; ++t) { sk.trim(); VF_CHECK(sk.get_num_retained() <= (1u << lg_k), "tuple-trim", "after trim() " << sk.get_num_retained() << " entries retained, k = " << (1u << lg_k)); }
       check_interval(sk, "tuple", sk.get_estimate());
       est_mode = sk.is_estimation_mode();
       if (!est_mode) VF_CHECK(sk.get_estimate() == static_cast<double>(n), "tuple-exact", "exact mode estimate " << sk.get_estimate() << " for " << n);
@@ -335,7 +341,7 @@ void prop_sketch(const Case& cs) {
 rc::Gen<Case> gen_sketch() {
   using namespace vf;
   auto nGen = rc::gen::weightedOneOf<int64_t>({{1, range(0, 3)}, {3, range(4, 300)}, {4, range(300, 20000)}, {1, range(20000, 399999)}});
-  return make_case({{"fam", range(0, 3)}, {"cfg", range(0, 511)}, {"n", nGen}, {"base", range(1, 1 << 30)}}, rc::gen::just(std::vector<Op>{}));
+  return make_case({{"fam", range(0, 3)}, {"cfg", range(0, 4095)}, {"n", nGen}, {"base", range(1, 1 << 30)}}, rc::gen::just(std::vector<Op>{}));
 }
 
 }  // namespace
